@@ -61,6 +61,7 @@ impl Outcome {
             "documented_capacity_panics": st.documented_panics.load(AO::Relaxed),
             "merge_soundness_rechecks": st.merge_checked.load(AO::Relaxed),
             "state_cap_hit": capped,
+            "transition_graph_fingerprint": format!("{:016x}", st.graph_fp.load(AO::Relaxed)),
             "transitions_per_operation": opc,
             "wall_s": t0.elapsed().as_secs_f64(),
         }));
@@ -447,10 +448,10 @@ pub fn run_c07<H: HB>(tier: Tier) -> Outcome {
         let (cases, viol) = crate::post::par_each(seqs.len() * 2, th, |i| {
             let d = i % 2 == 1;
             let s = &seqs[i / 2];
-            crate::crash::set_case(|| Case { prop: prop.into(), hasher: H::NAME.into(), double: d, root: Root::FromIter(s.clone(), Hint { lo: 0, hi: None }), ops: vec![], last: None, probe: Some("from_iter-differential".into()), detail: String::new(), universe: uni.clone(), aux: None, trail: vec![] });
+            crate::crash::set_case(|| Case { prop: prop.into(), hasher: H::NAME.into(), double: d, root: Root::FromIter(s.clone(), Hint { lo: 0, hi: None }), ops: vec![], last: None, probe: Some("from_iter-differential".into()), detail: String::new(), universe: uni.clone(), aux: None, trail: vec![], params: vec![] });
             crate::post::from_iter_differential::<H>(d, &uni, s, true).map_err(|(r, e)| Case {
                 prop: prop.into(), hasher: H::NAME.into(), double: d, root: r, ops: vec![], last: None,
-                probe: Some("from_iter-differential".into()), detail: e, universe: uni.clone(), aux: None, trail: vec![],
+                probe: Some("from_iter-differential".into()), detail: e, universe: uni.clone(), aux: None, trail: vec![], params: vec![],
             })
         });
         absorb_post(&mut out, "FromIterator: same vectors x every legal size_hint, differential over hints", cases, viol, t0, json!({"sequences": seqs.len(), "hints_per_sequence": crate::post::hint_menu(2, true).len()}));
@@ -664,8 +665,199 @@ pub fn run_c10<H: HB>(tier: Tier) -> Outcome {
     out
 }
 
+pub fn run_c08<H: HB>(tier: Tier) -> Outcome {
+    let prop = "C08";
+    let mut out = Outcome::new();
+    let q = tier == Tier::Quick;
+    let (k, m) = if q { (3u32, 3i32) } else { (4, 3) };
+    let prios: Vec<i32> = (0..m).collect();
+    let alpha = A_REACH | A_RETAIN | A_RETAIN_MUT | A_ITER_MUT | A_ITER_MUT_BACK | A_POP_IF;
+    let cfg = base_cfg(prop, k, &prios, alpha);
+    let universe = cfg.universe();
+    let pname = if q { "C08" } else { "C08t" };
+    let mk = |ex: &mut Explorer<H>| {
+        for p in crate::probes::all_probes::<H>(pname, &universe) {
+            ex.probes.push(p);
+        }
+    };
+    run_closed::<H>(&mut out, &format!("E1 closed ({k} items x {m} priorities): retain/retain_mut/iter_mut/pop_if transitions + every prefix x write pattern from every state"), &cfg, &mk);
+    if !out.violations.is_empty() {
+        return out;
+    }
+    for n in if q { vec![6usize, 7, 8] } else { vec![6, 7, 8, 9, 16, 17] } {
+        let mut c = seeds_cfg(prop, n, &REL_BIN, alpha & !A_REACH | A_POP);
+        c.deep = n <= 9;
+        let seeds = if n <= 8 { f_bin(n) } else { f_seg(n) };
+        run_seeds::<H>(&mut out, &format!("E2 seeds of {n} elements, depth 1"), &c, seeds, 1, &no_probes);
+        if !out.violations.is_empty() {
+            return out;
+        }
+    }
+    out
+}
+
+pub fn run_c14<H: HB>(tier: Tier) -> Outcome {
+    let prop = "C14";
+    let mut out = Outcome::new();
+    let q = tier == Tier::Quick;
+    let th = threads();
+    let (k, m) = if q { (3u32, 3i32) } else { (4, 2) };
+    let prios: Vec<i32> = (0..m).collect();
+    let t0 = Instant::now();
+    let mut cfg = base_cfg(prop, k, &prios, A_REACH | A_CLONE | A_CAPACITY);
+    cfg.deep = false;
+    let universe = cfg.universe();
+    let mut ex = Explorer::<H>::new(&cfg);
+    for p in crate::probes::all_probes::<H>(prop, &universe) {
+        ex.probes.push(p);
+    }
+    ex.collect = Some(Default::default());
+    ex.run_closed();
+    out.absorb(&format!("E1 closed ({k} items x {m} priorities) + clone independence from every state"), &ex, t0);
+    if !out.violations.is_empty() {
+        return out;
+    }
+    let nodes = ex.collect.take().unwrap().into_inner().unwrap();
+    let t0 = Instant::now();
+    let (cases, viol) = crate::post::par_each(nodes.len(), th, |i| {
+        let a = &nodes[i];
+        let mut c = 0;
+        for b in &nodes {
+            if !crate::post::same_kind(&a.q, &b.q) {
+                continue;
+            }
+            c += 1;
+            crate::post::eq_pair(&a.q, &b.q).map_err(|e| {
+                let mut cs = crate::post::node_case(prop, a, &universe, None, "eq-pair", e);
+                cs.aux = Some((b.root.0, b.root.1.clone(), b.ops()));
+                cs
+            })?;
+        }
+        Ok(c)
+    });
+    absorb_post(&mut out, "== / != on all ordered pairs of explored states of the same kind (all arrangements, capacities, histories)", cases, viol, t0, json!({"states": nodes.len()}));
+    if !out.violations.is_empty() {
+        return out;
+    }
+    // across hashers: the same exploration with the all-colliding hasher, all cross pairs
+    let t0 = Instant::now();
+    let (k2, m2) = if q { (3u32, 2i32) } else { (3, 3) };
+    let prios2: Vec<i32> = (0..m2).collect();
+    let mut cfg2 = base_cfg(prop, k2, &prios2, A_REACH);
+    cfg2.deep = false;
+    let mut exa = Explorer::<H>::new(&cfg2);
+    exa.collect = Some(Default::default());
+    exa.run_closed();
+    let mut exb = Explorer::<CollideAll>::new(&cfg2);
+    exb.collect = Some(Default::default());
+    exb.run_closed();
+    let na = exa.collect.take().unwrap().into_inner().unwrap();
+    let nb = exb.collect.take().unwrap().into_inner().unwrap();
+    out.absorb("E1 closed, fnv hasher (for cross-hasher equality)", &exa, t0);
+    out.absorb("E1 closed, all-colliding hasher (for cross-hasher equality)", &exb, t0);
+    let uni2 = cfg2.universe();
+    let t0 = Instant::now();
+    let (cases, viol) = crate::post::par_each(na.len(), th, |i| {
+        let a = &na[i];
+        let mut c = 0;
+        for b in &nb {
+            if a.q.double() != b.q.double() {
+                continue;
+            }
+            c += 1;
+            crate::post::eq_cross(&a.q, &b.q).map_err(|e| crate::post::node_case(prop, a, &uni2, None, "eq-cross-hasher", e))?;
+        }
+        Ok(c)
+    });
+    absorb_post(&mut out, "== across hashers: all pairs (fnv-hashed state, all-colliding-hashed state)", cases, viol, t0, json!({"states_a": na.len(), "states_b": nb.len()}));
+    out
+}
+
+pub fn run_c17<H: HB>(tier: Tier) -> Outcome {
+    let prop = "C17";
+    let mut out = Outcome::new();
+    let q = tier == Tier::Quick;
+    let (k, m) = if q { (3u32, 2i32) } else { (3, 3) };
+    let prios: Vec<i32> = (0..m).collect();
+    let mut cfg = base_cfg(prop, k, &prios, A_REACH | A_CAPACITY | A_CAPACITY_HUGE | A_CLEAR_DRAIN);
+    cfg.deep = true;
+    let universe = cfg.universe();
+    let mk = |ex: &mut Explorer<H>| {
+        for p in crate::probes::all_probes::<H>(prop, &universe) {
+            ex.probes.push(p);
+        }
+    };
+    run_closed::<H>(&mut out, &format!("E1 closed ({k} items x {m} priorities) with every capacity call as a transition + twin continuations from every state"), &cfg, &mk);
+    if !out.violations.is_empty() {
+        return out;
+    }
+    for n in if q { vec![8usize, 16] } else { vec![7, 8, 9, 16, 17, 33] } {
+        let mut c = seeds_cfg(prop, n, &REL_BIN, A_CAPACITY | A_CAPACITY_HUGE | A_POP | A_PUSH);
+        c.deep = true;
+        let seeds = if n <= 8 { f_bin(n) } else { f_seg(n) };
+        let depth = if q && n > 8 { 1 } else { 2 };
+        run_seeds::<H>(&mut out, &format!("E2 seeds of {n} elements: capacity calls and every operation (depth {depth})"), &c, seeds, depth, &no_probes);
+        if !out.violations.is_empty() {
+            return out;
+        }
+    }
+    out
+}
+
+pub fn run_c18(tier: Tier) -> Outcome {
+    let prop = "C18";
+    let mut out = Outcome::new();
+    let q = tier == Tier::Quick;
+    let (k, m) = if q { (3u32, 2i32) } else { (3, 3) };
+    let prios: Vec<i32> = (0..m).collect();
+    let alpha = A_CORE | A_BULK | A_CLONE | A_BORROWED | A_PAYLOAD;
+    let cfg = base_cfg(prop, k, &prios, alpha);
+    let mut fps: Vec<(String, String, u64, u64)> = vec![];
+    macro_rules! one {
+        ($H:ty, $label:expr) => {{
+            let before = out.layers.len();
+            run_closed::<$H>(&mut out, &format!("E1 closed ({k} items x {m} priorities), full alphabet, hasher = {}", $label), &cfg, &no_probes);
+            if let Some(l) = out.layers.get(before) {
+                fps.push(($label.to_string(), l["transition_graph_fingerprint"].as_str().unwrap_or("").to_string(), l["unique_states"].as_u64().unwrap_or(0), l["transitions"].as_u64().unwrap_or(0)));
+            }
+            if !out.violations.is_empty() {
+                return out;
+            }
+        }};
+    }
+    one!(FixedSip, "sip with fixed key (BuildHasherDefault<DefaultHasher>)");
+    one!(Seeded, "seeded by VERIF_SEED");
+    one!(StdRandom, "std RandomState (run 1)");
+    one!(StdRandom, "std RandomState (run 2)");
+    one!(FnvBuild, "no_std-friendly fnv via with_default_hasher / with_hasher");
+    one!(CollideAll, "all-colliding (every hash = 0)");
+    // deep seeds under the degenerate hasher
+    for n in if q { vec![8usize] } else { vec![8, 9, 16, 17] } {
+        let mut c = seeds_cfg(prop, n, &REL_BIN, A_CORE | A_RETAIN | A_CONVERT | A_BORROWED);
+        c.deep = n <= 9;
+        let seeds = if n <= 8 { f_bin(n) } else { f_seg(n) };
+        run_seeds::<CollideAll>(&mut out, &format!("E2 seeds of {n} elements, all-colliding hasher, depth 1"), &c, seeds.clone(), 1, &no_probes);
+        if !out.violations.is_empty() {
+            return out;
+        }
+        run_seeds::<StdRandom>(&mut out, &format!("E2 seeds of {n} elements, std RandomState, depth 1"), &c, seeds, 1, &no_probes);
+        if !out.violations.is_empty() {
+            return out;
+        }
+    }
+    let identical = fps.windows(2).all(|w| w[0].1 == w[1].1 && w[0].2 == w[1].2 && w[0].3 == w[1].3);
+    out.extra.insert("transition_graphs_identical_across_hashers".into(), json!(identical));
+    out.extra.insert("graph_fingerprints".into(), json!(fps.iter().map(|f| json!({"hasher": f.0, "fingerprint": f.1, "states": f.2, "transitions": f.3})).collect::<Vec<_>>()));
+    out
+}
+
 pub fn run_property(prop: &str, tier: Tier) -> Outcome {
     match prop {
+        "C05" => crate::cost::run_c05(tier),
+        "C08" => run_c08::<FnvBuild>(tier),
+        "C14" => run_c14::<FnvBuild>(tier),
+        "C17" => run_c17::<FnvBuild>(tier),
+        "C18" => run_c18(tier),
         "C10" => run_c10::<FnvBuild>(tier),
         "C07" => run_c07::<FnvBuild>(tier),
         "C15" => crate::c15::run_c15::<FnvBuild>(tier),
